@@ -370,6 +370,20 @@ func enumerateFaults(p C04Plan, x xfer, stream []byte) []C04Fault {
 				add("ins-empty-block", pipe.Edit{Off: off, Kind: "ins", Val: 0x02}, pipe.Edit{Off: off, Kind: "ins", Val: 0x00})
 			}
 		}
+		// exactly 256 (512) bytes more in the header, in the title or as zeros in
+		// front of the offset: a length byte compared modulo 256 would not notice
+		hdrLen := int(stream[x.Start+1])
+		if tEnd := bytes.IndexByte(stream[x.Start+2:x.Start+2+hdrLen], 0); tEnd >= 0 {
+			for _, c := range []struct {
+				off, n, val int
+			}{{x.Start + 2, 256, 'A'}, {x.Start + 2 + tEnd, 512, 'z'}, {x.Start + 2 + tEnd + 1, 256, '0'}} {
+				es := make([]pipe.Edit, c.n)
+				for k := range es {
+					es[k] = pipe.Edit{Off: c.off, Kind: "ins", Val: c.val}
+				}
+				add("ins-256-in-header", es...)
+			}
+		}
 		// a whole extra block whose data sums to zero, slipped in at a block
 		// boundary: every block checksum still holds, the transfer is longer
 		// than announced
@@ -558,6 +572,8 @@ func kindClass(k string) string {
 		return "empty-block"
 	case "ins-zero-sum-block":
 		return "extra-block"
+	case "ins-256-in-header":
+		return "header-grown-by-256"
 	}
 	return "substitution"
 }
